@@ -294,7 +294,14 @@ func (p *{{parser}}) _recover() bool {
 			// An error that was shifted but not yet reduced is about to be
 			// discarded. It came first, so it is the one to report.
 			if e, ok := p._stack.Peek(0).Sym.(Error); ok {
-				errSym = e
+				// An action is free to return an Error value as its result: only an
+				// item that was pushed by shifting ERROR is a pending error.
+				if len(p._stack) >= 2 {
+					shift, ok := _Find(_actions, p._stack.Peek(1).State, int32(ERROR))
+					if ok && shift == p._stack.Peek(0).State {
+						errSym = e
+					}
+				}
 			}
 			p._stack.Pop(1)
 		}
